@@ -31,8 +31,15 @@ def spelling_pairs(rng, rec, a, b):
     if c < 0.3:
         op = rng.choice(["add", "sub", "mul"])
         s1, s2 = rng.sample(["operator", "numpy", "numpoly"], 2)
-        x = rec.do("arith", [a, b], op=op, spelling=s1, prop="C08")
-        y = rec.do("arith", [a, b], op=op, spelling=s2, prop="C08")
+        ops = [a, b]
+        if rng.random() < 0.5:
+            # a numeric operand in any carrier numpy accepts (python / numpy scalars incl. booleans, lists, tuples, arrays)
+            shape = gen.broadcast_partner(rng, rec.obj(a).shape)
+            ops = [a, rec.new(gen.rand_numeric(rng, shape, rng.choice(["int", "float", "bool", "bool"])), note="numeric")]
+            if rng.random() < 0.4:
+                ops.reverse()
+        x = rec.do("arith", ops, op=op, spelling=s1, prop="C08")
+        y = rec.do("arith", ops, op=op, spelling=s2, prop="C08")
     elif c < 0.45:
         op = rng.choice(["neg", "pos", "square"])
         s1, s2 = rng.sample(["operator", "numpy", "numpoly"], 2)
